@@ -91,7 +91,8 @@ Definition patch_function (allp:bool) (k:kernel) (s:os) (a:Z) (bs:list Z) : os *
 (* system calls without their trace entry (the allocation loop logs its events itself, newest
    first, and appends them once: a full scan is 65 537 calls) *)
 Definition munmap_core (s:os) (a len:Z) : os :=
-  {| o_mem := o_mem s; o_wr := filter (fun p => negb (zmem p (pages a (Z.max len 1)))) (o_wr s);
+  let ps := pages a (Z.max len 1) in
+  {| o_mem := o_mem s; o_wr := filter (fun p => negb (zmem p ps)) (o_wr s);
      o_owned := remove1 (a,len) (o_owned s);
      o_dirty := filter (fun x => negb (in_range a len x)) (o_dirty s);
      o_calls := S (o_calls s); o_trace := o_trace s |}.
